@@ -1395,6 +1395,34 @@ pub fn lfo_fine(r: &mut Rng, n: usize, out: &mut Vec<String>) {
 /// end), parameters that are bit-equal to one another, changes of the running phase's time in mid-phase
 pub fn adsr_fine(r: &mut Rng, n: usize, out: &mut Vec<String>) {
     let mut left = n as i64;
+    // one steady pattern per call: a sequencer repeating the same note (same on/off tick counts) over a slow envelope, long
+    // enough for the levels at the gate events to settle into a cycle -- every tick is compared
+    if n >= 4000 {
+        let sr = r.pick(&[1000.0f32, 1000.0, 8000.0, 48000.0]);
+        out.push(format!("adsr new {}", b(sr)));
+        let len = r.pick(&[500.0f32, 1000.0, 2000.0, 4000.0]); // ticks per timed phase
+        let t = len / sr;
+        for key in ["a", "d", "r"] {
+            let tt = if r.chance(2, 3) { t } else { t * r.pick(&[0.5f32, 2.0]) };
+            out.push(format!("set {} {}", key, b(tt)));
+        }
+        out.push(format!("set s {}", level(r)));
+        let on = r.pick(&[700usize, 400, 311, 97, 250, 650]).min(len as usize);
+        let off = r.pick(&[700usize, 650, 97, 311, 120]).min(len as usize);
+        let budget = (n / 2).min(16000);
+        let reps = (budget / (on + off)).clamp(4, 40);
+        for _ in 0..reps {
+            out.push("gate_on".into());
+            for _ in 0..on {
+                out.push("tick".into());
+            }
+            out.push("gate_off".into());
+            for _ in 0..off {
+                out.push("tick".into());
+            }
+        }
+        left -= (reps * (on + off + 2)) as i64;
+    }
     while left > 0 {
         match r.below(5) {
             0 | 1 => {
